@@ -100,6 +100,12 @@ CHECKS['C20'] = dict(level='exploration',
     note='Trusted: the independent lexer for the line classification; the eat_blanks clause is judged only when no blank-line count option is set.',
     design='DESIGN.md §2 C20')
 
+CHECKS['C19'] = dict(level='exploration',
+    technique='runtime monitoring with the SPACE and DUMP hooks: every spacing decision record (rule names logged, raw and final value, forced flag) is joined with the blanks measured between the two tokens in the output bytes and with the configured value of the rule named',
+    text='Every one of the 258 IARF sp_ options is set singly to each of ignore/add/remove/force (exhaustive over options x values) on corpus files where its rule fires under defaults and on nine hand-written hosts; a 6-config pairwise-separating family (each option a distinct code word of minimum distance 2, so any two options differ in at least two configs) and seeded joint draws are run over seeded corpus files. For every record whose last logged rule is a user option and whose tokens are adjacent on one output line (tokens located in the output bytes by a sequential scan of the O dump): remove gives no blank unless the junction would lex differently (decided by the independent lexer, two identifier characters, digraphs) or the rule is one the statement names (return/case operand, macro body); force gives exactly min_sp (1) blanks; add at least one; ignore keeps presence as in the input (tokens neighbours in the T dump); and the raw decision equals the value configured for the very rule named (decorations such as "/FORCE" and "| ADD" are honoured as logged).',
+    note='Trusted: the SPACE hook reports what log_rule() is given and what space_text() decides (C10 checks that hooks do not change the output); trailing comments, Qt macro arguments and pairs not attributed to a user option are counted, not judged.',
+    design='DESIGN.md §2 C19')
+
 ALL = ['C%02d' % i for i in range(1, 21)]
 
 
